@@ -126,7 +126,8 @@ func (h *Hist) ConvR(i, opt int, o *hx.Out) {
 	if len(after) > 0 {
 		g += "r" + strings.Join(after, ",")
 	}
-	h.Steps = append(h.Steps, fmt.Sprintf("%d conv %d %s %s %s %s %s ToJSONSchema@%s", i, opt, dtok, metaTok, l.Snap.BagState, l.Snap.ValState, h.wtok(), shortType(l.S)))
+	g += "!" + h.KPart
+	h.Steps = append(h.Steps, fmt.Sprintf("%d conv %d %s %s %s %s %s %s ToJSONSchema@%s", i, opt, dtok, metaTok, l.Snap.BagState, l.Snap.ValState, h.wtok(), h.KTok, shortType(l.S)))
 	h.Verd = append(h.Verd, fmt.Sprintf("%s:%s", same, idx(changed)))
 	h.Strct = append(h.Strct, g)
 	h.Names = append(h.Names, fmt.Sprintf("conv(%d,opt%d)", i, opt))
